@@ -291,11 +291,12 @@ def run_cases(ctx, cases, prop="C14", classify_fn=None):
 
 def run(ctx):
     ctx.make_overlay(need_kernel=True)
-    ctx.regen_all(needed=("py2v_reject.py", "consts2v.py", "py2v_iter.py"))  # Gen/RejectSites.v, Gen/ConstsGen.v: rejection sites and loop bounds as the source has them now
+    ctx.regen_all(needed=("py2v_reject.py", "consts2v.py", "py2v_iter.py", "py2v_entry.py"))  # Gen/RejectSites.v, Gen/ConstsGen.v: rejection sites and loop bounds as the source has them now
     ok = ctx.build_models(MODELS)
     if ok:
         ctx.build_props()
         ctx.build_props("Props/C02g.vo")  # the generated rejection sites (rule, truncation, index spaces, columns) are the model
+        ctx.build_props("Props/C06g.vo")  # entry-point routing: max_prior_samples cuts the in-memory library to its first rows
         ctx.build_props("Props/C14c.vo")  # loop bounds read from the source
         ctx.build_props("Props/C14b.vo")  # block bookkeeping of both iterative loops, generated from the source: contiguous, disjoint, within the limit
     cases = load_corpus("C14") + gen_cases(ctx)
